@@ -116,22 +116,26 @@ func (s *Stream) logDroppedDataWithThrottling() {
 
 // callSinksAsync asynchronously calls all sink functions
 func (s *Stream) callSinksAsync(results []map[string]any) {
-	// Safely access sinks slice using read lock
+	// Snapshot the sink slices under the read lock and release it before running
+	// any sink: a synchronous sink runs inline here, and holding the lock while it
+	// runs would deadlock a sink that calls AddSink/AddSyncSink (write lock) and,
+	// through the pending writer, every later delivery. The slices are append-only,
+	// so the captured headers stay valid without copying.
 	s.sinksMux.RLock()
-	defer s.sinksMux.RUnlock()
+	sinks := s.sinks
+	syncSinks := s.syncSinks
+	s.sinksMux.RUnlock()
 
-	if len(s.sinks) == 0 && len(s.syncSinks) == 0 {
+	if len(sinks) == 0 && len(syncSinks) == 0 {
 		return
 	}
 
-	// Directly iterate sinks slice to avoid copy overhead
-	// Since submitSinkTask is async, won't hold lock for long time
-	for _, sink := range s.sinks {
+	for _, sink := range sinks {
 		s.submitSinkTask(sink, results)
 	}
 
 	// Execute synchronous sinks (blocking, sequential)
-	for _, sink := range s.syncSinks {
+	for _, sink := range syncSinks {
 		// Recover panic for each sync sink to prevent crashing the stream
 		func() {
 			defer func() {
